@@ -123,6 +123,9 @@ class World:
         self.cl = ClientRec("L", self.log, self.loop)
         self.sl = ServerRec("S", self.log, self.loop)
         self.prot.discovery.watch_all_services(self.cl)
+        # an auto-subscribing watcher with a concrete instance id and major version next to the catch-all one
+        self.prot.discovery.find_subscribe_eventgroup(
+            cfg_.Eventgroup(sid, 1, 1, 5, ("192.0.2.1", 3005), hdr.L4Protocols.UDP))
         if simple:
             # the library's own SimpleService is the server-side listener (announced through this endpoint)
             class S(svc.SimpleService):
@@ -247,10 +250,12 @@ def world_result(warm, sid, data, multicast, simple=False, collecting=False, sta
 NOT_STARTED_SEEDS = ("sd-find", "sd-offer-v4", "sd-subscribe-cfg", "sd-unicast-flag-clear", "sd-stop-subscribe", "two-messages")
 
 
-def oracle_b(data, sid, with_simple=False, with_not_started=False):
+def oracle_b(data, sid, with_simple=False, with_not_started=False, light=False):
     out = []
     tw = twin_of(data)
     combos = [(warm, mc, False, False, True) for warm in (False, True) for mc in (False, True)]
+    if light:
+        combos = [c for c in combos if not c[1]]  # unicast only (the long two-message seed)
     if with_simple:
         combos.append((True, False, True, False, True))
         combos.append((True, False, False, True, True))
@@ -338,7 +343,7 @@ def part(args):
             viols.append((clause, disc, f"{which}: {detail}", dict(seed=name, mutation=mname, data=data, oracle="A")))
         if live:
             for clause, disc, detail in oracle_b(data, sid, name in ("sd-subscribe-cfg", "sd-stop-subscribe"),
-                                                    name in NOT_STARTED_SEEDS) + service_endpoint(data):
+                                                    name in NOT_STARTED_SEEDS, name == "two-sd-messages") + service_endpoint(data):
                 viols.append((clause, disc, detail, dict(seed=name, mutation=mname, data=data, oracle="B")))
     return n, viols[:200], classes, len(viols)
 
@@ -381,7 +386,7 @@ def check(ctx):
     nontrivial = sum(v for k, v in classes.items() if k == "value")
     cov = dict(
         evaluations=n, distinct_nontrivial=nontrivial, exhaustive=True,
-        rule="every byte string of length 0..2 and the full 1-mutation neighbourhood of 12 seed datagrams (all "
+        rule="every byte string of length 0..2 and the full 1-mutation neighbourhood of 14 seed datagrams (all "
              "truncations, every value on structural bytes, 15 values elsewhere, insertions, removal / duplication of "
              "structural regions, 32-bit length corruptions, non-ASCII bytes in configuration strings); each input goes "
              "to 11 decoder entry points and, over unicast and multicast, to a fresh and a warmed-up discovery endpoint "
@@ -406,7 +411,7 @@ def replay(ctx, body):
             offs = offsets_of(sb)
     va, cls = oracle_a(data, offs)
     vb = oracle_b(data, sid, c.get("seed") in ("sd-subscribe-cfg", "sd-stop-subscribe"),
-                  c.get("seed") in NOT_STARTED_SEEDS) + service_endpoint(data)
+                  c.get("seed") in NOT_STARTED_SEEDS, c.get("seed") == "two-sd-messages") + service_endpoint(data)
     print("decoder outcome classes:", cls)
     for v in va + vb:
         print("FAILS:", v)
